@@ -66,11 +66,30 @@ def restore_clock(saved):
         scmod.time = saved['s']
 
 
+SECRET_TEXT = u'gro\xdfes-gehe\xedmnis-\u0416-zq9'      # a text secret with characters outside ASCII / outside Latin-1
+SECRET_BYTES = b'\xffserver\x00secret\xfezq9'
+
+
+def server_key(cfg):
+    return {'text-nonascii': SECRET_TEXT, 'bytes': SECRET_BYTES}.get(cfg.get('key'), SECRET)
+
+
+def similar_keys(key):
+    """keys another party might hold that differ from the server's, but only slightly: none of them may open its cookies"""
+    import unicodedata
+    if isinstance(key, bytes):
+        return [key.replace(b'\xff', b'?').replace(b'\xfe', b'?'), key.replace(b'\x00', b''), key.swapcase(), key[:-1], key.decode('latin-1')]
+    out = [''.join(c if ord(c) < 128 else '?' for c in key), ''.join(c if ord(c) < 128 else u'\xe9' for c in key),
+           key.encode('latin-1', 'replace'), key.encode('ascii', 'ignore'), unicodedata.normalize('NFD', key.replace(u'\xed', u'\xef')),
+           key.upper(), key.swapcase(), key[:-1], key + ' ', key.encode('utf-16-le')]
+    return [k for k in out if k != key and (k if isinstance(k, bytes) else k.encode('utf-8')) != (key if isinstance(key, bytes) else key.encode('utf-8'))]
+
+
 def make_app(cfg):
     from clastic import Application, Response
     from clastic.middleware.cookie import SignedCookieMiddleware, NEVER
     expiry = {'session': 0, 'never': NEVER}.get(cfg['expiry'], cfg['expiry'])
-    kw = {'secret_key': SECRET, 'expiry': expiry}
+    kw = {'secret_key': server_key(cfg), 'expiry': expiry}
     if cfg.get('key') == 'default':
         del kw['secret_key']                # the middleware draws its own signing key
     if cfg.get('arg_name'):
@@ -311,7 +330,12 @@ class CookieSim(object):
                 # explicit one): same data, same cookie name, a signature this server never made
                 from clastic.middleware.cookie import JSONCookie, SignedCookieMiddleware
                 data = self.ledger[src % len(self.ledger)]['data'] if self.ledger else {'a': 1}
-                other_mw = SignedCookieMiddleware() if p % 3 else SignedCookieMiddleware(secret_key='another-explicit-key')
+                if p % 4 == 3 and self.cfg.get('key') != 'default':
+                    sims = similar_keys(server_key(self.cfg))
+                    other_mw = SignedCookieMiddleware(secret_key=sims[q % len(sims)])
+                    self.ctx.event('tamper-foreign-similar-key')
+                else:
+                    other_mw = SignedCookieMiddleware() if p % 3 else SignedCookieMiddleware(secret_key='another-explicit-key')
                 sent = JSONCookie(dict(data), other_mw.secret_key).serialize().decode('ascii')
             else:
                 sent = tamper(tkind, base, oth, p, q)
@@ -344,7 +368,7 @@ def machine():
                    st.sampled_from([['expire', 'now'], ['expire', 1000000 + 50], ['expire', 1000000 + 5000], ['expire', 10 ** 10]]))
     ops = st.lists(op, max_size=3)
     cfgs = st.fixed_dictionaries({'expiry': st.sampled_from(['session', 'never', 5, 100, 100, 3600]),
-                                  'key': st.sampled_from(['explicit', 'default']),
+                                  'key': st.sampled_from(['explicit', 'default', 'text-nonascii', 'bytes']),
                                   'arg_name': st.sampled_from([None, None, 'session', 'sess_data']),
                                   'cookie_name': st.sampled_from([None, None, 'sid', 'my.cookie']),
                                   'second': st.one_of(st.none(), st.none(), st.fixed_dictionaries({
@@ -496,6 +520,24 @@ def run_roundtrip(ctx):
                 finally:
                     sim.close()
     ctx.event('roundtrip-catalogue-complete')
+    # complete as well: every kind of server key x every slightly different key another party might hold - a cookie signed with
+    # that key is not presented, the server's own still is
+    for kkind in ('explicit', 'text-nonascii', 'bytes'):
+        cfg = {'expiry': 100, 'key': kkind}
+        for q in range(len(similar_keys(server_key(cfg)))):
+            case = [['cfg', cfg], ['req', 0, [['set', 'user', 'alice']]], ['tamper', 0, 'foreign', 0, 0, 3, q, []], ['req', 0, []],
+                    ['tamper', 1, 'foreign', 0, 0, 3, q, [['set', 'a', 1]]], ['req', 1, []]]
+            ctx.case(case)
+            ctx.current = case
+            sim = CookieSim(ctx, cfg)
+            try:
+                for op in case[1:]:
+                    sim.step(op)
+                ctx.nt(['similar-key', kkind, q], sample=False)
+            except Exception as e:
+                ctx.classify_exc(e, case, 'history')
+            finally:
+                sim.close()
 
 
 def shards(tier, seed):
